@@ -314,6 +314,8 @@ impl Prop for C09 {
                     Trial::Ok(s2) if s2 == want => {}
                     other => return Err(Fail::new("zero-tail-image-differs", format!("the settled image with {tail} zero bytes appended to {name} does not open to the written state: {:?}", other).chars().take(800).collect::<String>())),
                 }
+                // (an open that cut the zeros off has also started a fresh chunk behind them)
+                td.restore();
                 for (ri, rec) in parsed.recs.iter().enumerate() {
                     let (rs, re) = (bounds[ri], bounds[ri + 1]);
                     for pos in rs..re {
@@ -335,7 +337,9 @@ impl Prop for C09 {
                             let overrun = mp.recs.len() == ri && mp.stop == Some(DecErr::Eof);
                             let field = refcodec::field_at(rec, re - rs, pos - rs);
                             let desc = format!("{name} with a {tail}-byte zero tail, byte {pos} ({field} of record #{ri} {:?}) changed {:#04x} -> {:#04x}", rec.kind(), data[pos], v);
-                            let fail = match td.open(&cfg) {
+                            let outcome = td.open(&cfg);
+                            td.restore();
+                            let fail = match outcome {
                                 Trial::Err(_) | Trial::ReadErr(_) => None,
                                 Trial::Ok(s2) if s2 == want => None,
                                 Trial::Ok(s2) => Some(Fail::new(
